@@ -12,7 +12,7 @@ from ..seed import digest
 
 ID = "C20"
 ENVS = ["absent"]
-RUNS = {"quick": 64000, "thorough": 640000}
+RUNS = {"quick": 128000, "thorough": 1280000}
 RULE = ("case = (generator entry point, n, m, steps, complete, RNG schedule policy+seed); distinct = distinct case "
         "digest; non-trivial = at least one Markov step or one shuffle decision was taken")
 LEVEL_TEXT = ("seeded search over (n, m, steps, complete) x random walks decided draw by draw by the simulator's "
